@@ -467,6 +467,8 @@ def run_shard(params):
         analyse_fmmu(tuple(c for c, _ in trace), trace, status, events, n,
                      res, sigs, "fmmu_random")
     windows_leg(res, rng, 6 if params["rnd"] <= 10 else 40)
+    if params["shard"] in (0, 1):
+        netlink_leg(res, rng, 12 if params["rnd"] <= 10 else 60)
     res.info["distinct_interleavings"] = len(sigs)
     res.info["exhaustive"] = False
     return res
@@ -623,8 +625,149 @@ def windows_leg(res, rng, n):
                                                     **case))
 
 
+NETLINK_WORKER = r'''
+import asyncio, ctypes, json, os, random, socket, struct, sys
+sys.path.insert(0, %(repo)r)
+sys.path.insert(1, %(verif)r)
+libc = ctypes.CDLL(None, use_errno=True)
+if libc.unshare(0x40000000) != 0:          # CLONE_NEWNET: a private "lo"
+    print(json.dumps(dict(skip="unshare failed")))
+    sys.exit(0)
+os.environ["EBPFCAT_REPO"] = %(repo)r
+from vf import kern
+from ebpfcat.xdp import XDP, XDPExitCode, XDPFlags
+
+
+def xdp_state(ifindex):
+    """(attach mode, program id) of the interface, asked with an own
+    RTM_GETLINK request, not through the code under test"""
+    s = socket.socket(socket.AF_NETLINK, socket.SOCK_RAW, 0)
+    s.bind((0, 0))
+    s.send(struct.pack("IHHII", 32, 18, 1, 7, 0) +
+           struct.pack("BxHiII", 0, 0, ifindex, 0, 0))
+    data = s.recv(65536)
+    s.close()
+    ln, typ, flags, seq, pid = struct.unpack_from("IHHII", data, 0)
+    if typ == 2:
+        raise OSError(-struct.unpack_from("i", data, 16)[0], "RTM_GETLINK")
+    pos = 32
+    while pos < ln:
+        alen, atype = struct.unpack_from("HH", data, pos)
+        if atype & 0x3fff == 43:               # IFLA_XDP
+            sub, attached, progid = pos + 4, 0, 0
+            while sub < pos + alen:
+                l2, t2 = struct.unpack_from("HH", data, sub)
+                if t2 == 2:
+                    attached = data[sub + 4]
+                if t2 == 4:
+                    progid, = struct.unpack_from("I", data, sub + 4)
+                sub += (l2 + 3) & ~3
+            return attached, progid
+        pos += (alen + 3) & ~3
+    return 0, 0
+
+
+class P(XDP):
+    license = "GPL"
+
+    def program(self):
+        self.exit(XDPExitCode.PASS)
+
+
+async def main():
+    rng = random.Random(int(sys.argv[1]))
+    idx = socket.if_nametoindex("lo")
+    out = []
+    progs = []
+    for step in range(int(sys.argv[2])):
+        op = rng.choice(["attach", "attach", "attach-drv", "detach",
+                         "detach-drv"])
+        before = xdp_state(idx)
+        rec = dict(op=op, before=before)
+        try:
+            if op.startswith("attach"):
+                p = P()
+                progs.append(p)
+                await p.attach("lo", XDPFlags.DRV_MODE if op.endswith("drv")
+                               else XDPFlags.SKB_MODE)
+                rec["own_id"] = kern.prog_id(p.file_descriptor)
+            else:
+                await P().detach("lo", XDPFlags.DRV_MODE
+                                 if op.endswith("drv") else XDPFlags.SKB_MODE)
+            rec["outcome"] = "returned"
+        except OSError as ex:
+            rec["outcome"] = "raised"
+            rec["error"] = repr(ex)[:80]
+            if op.startswith("attach") and p.file_descriptor is not None:
+                rec["own_id"] = kern.prog_id(p.file_descriptor)
+        rec["after"] = xdp_state(idx)
+        out.append(rec)
+    print(json.dumps(dict(steps=out)))
+asyncio.run(main())
+'''
+
+
+def netlink_leg(res, rng, n):
+    """the installer's attach and the last leaver's detach on a real
+    interface: a private network namespace's `lo`, the real XDP.attach /
+    detach and their netlink code; what the kernel did is asked with an own
+    RTM_GETLINK request. Requests the kernel refuses (native mode on `lo`,
+    a mode other than the attached one) must raise, and a call that
+    returns must have taken effect"""
+    import json
+    import subprocess
+    from ..core import PYTHON
+    from .. import REPO, VERIF_ROOT
+    script = NETLINK_WORKER % dict(repo=REPO, verif=VERIF_ROOT)
+    try:
+        p = subprocess.run([PYTHON, "-c", script, str(rng.getrandbits(30)),
+                            str(n)], capture_output=True, timeout=120)
+    except subprocess.TimeoutExpired:
+        res.inconc("netlink leg: worker timed out")
+        return
+    if p.returncode:
+        res.violation("unexplained:netlink-worker",
+                      f"worker failed: {p.stderr.decode()[-300:]}",
+                      case=dict(kind="netlink"))
+        return
+    data = json.loads(p.stdout.decode().strip().splitlines()[-1])
+    if "skip" in data:
+        # no private network namespace in this environment: the leg is
+        # reported as not run (evidence), the schedule legs decide
+        res.count("netlink_leg_skipped")
+        res.info["netlink_leg"] = "not run: " + data["skip"]
+        return
+    for k, st in enumerate(data["steps"]):
+        desc = dict(kind="netlink", step=k, **st)
+        res.case(["netlink", k, st["op"], st["before"][0]], nontrivial=True)
+        res.count("netlink_requests")
+        res.count(f"netlink_{st['op']}_{st['outcome']}")
+        before, after = tuple(st["before"]), tuple(st["after"])
+        why = None
+        if st["outcome"] == "returned":
+            if st["op"].startswith("attach") and after[1] != st["own_id"]:
+                why = (f"{st['op']} returned, but the interface runs "
+                       f"program {after[1]} (mode {after[0]}), not the "
+                       f"program {st['own_id']} of the call")
+            # (the kernel's attach modes: 1 native, 2 generic; a detach
+            # names a mode, and detaching a mode in which nothing is
+            # attached succeeds without touching the other)
+            gone = 1 if st["op"].endswith("drv") else 2
+            if st["op"].startswith("detach") and after[0] in (gone, 4):
+                why = (f"{st['op']} returned, but program {after[1]} is "
+                       f"still attached (mode {after[0]})")
+        else:
+            if after != before:
+                why = (f"{st['op']} raised ({st.get('error')}), but the "
+                       f"interface changed from {before} to {after}")
+        if why:
+            res.violation("unexplained:netlink-" + st["op"], why, case=desc)
+
+
 def finalize(res, tier, seed):
     c = res.counters
+    if not c.get("netlink_requests") and not c.get("netlink_leg_skipped"):
+        res.inconc("netlink leg did not run")
     if not c.get("window_histories"):
         res.inconc("window histories did not run")
     if not c.get("schedules_enumerated"):
